@@ -21,7 +21,8 @@ Definition show_ev (e : ev) : list string :=
   | ELost => ["X"]
   | EQuit => ["Q"]
   | ENoop => ["-"]
-  | ECall _ _ | EProduced _ _ => []
+  | ECancelled c => ["C" ++ show_nat c ++ "=err:CancelledError"]
+  | ECall _ _ | EProduced _ _ | EAbsorbed _ _ => []
   end.
 Definition show_group (g : list ev) : string :=
   match flat_map show_ev g with [] => "." | l => String.concat "," l end.
